@@ -39,6 +39,15 @@ def mc(run, tier):
                     raise MachineryError("vacuity: WaitDep action %s never taken" % a)
 
 
+def mc_blockdep(run):
+    for cfg, want in (("BlockDep_MC.cfg", "ok"), ("BlockDep_D5.cfg", "invariant"), ("BlockDep_W3.cfg", "invariant"),
+                      ("BlockDep_W0.cfg", "invariant")):
+        res = tlc.run("BlockDep", cfg, workers=16, timeout=900)
+        if res["status"] != want:
+            raise MachineryError("BlockDep %s: expected %s, got %s\n%s" % (cfg, want, res["status"], res["output"][-2000:]))
+        run.add_mc("BlockDep/" + cfg, res)
+
+
 def api_streams(run, nlists, sd, accels):
     res, finals = tlc.simulate_final_states("OpSeq", "OpSeq.cfg", nlists, 109, sd + 11)
     run.add_mc("OpSeq(simulate)", res)
@@ -103,6 +112,7 @@ def main(tier):
     run = Run("C04", tier)
     sd = seed()
     mc(run, tier)
+    mc_blockdep(run)
     nlists = 600 if tier == "quick" else 6000
     accels = ["ethos-u55-64", "ethos-u65-512"] if tier == "quick" else ACCELS
     items = api_streams(run, nlists, sd, accels)
